@@ -186,15 +186,15 @@ Definition dispatch_server (tag : N) (a : LL) : LL :=
   | Some (c, rounds) =>
     match tag with
     | 101 => [accept_history c (initial_table c) rounds]
-    | 201 => [[b2n (mon_C01 c rounds)]]
-    | 202 => [[b2n (mon_C02 c rounds)]]
-    | 203 => [[b2n (mon_C03 c rounds)]]
-    | 204 => [[b2n (mon_C04 c rounds)]]
-    | 205 => [[b2n (mon_C05 c rounds)]]
-    | 206 => [[b2n (mon_C06 c rounds)]]
-    | 207 => [[b2n (mon_C07 c rounds)]]
-    | 208 => [[b2n (mon_C08 c rounds)]]
-    | 210 => [[b2n (mon_C10 c rounds)]]
+    | 201 => [[b2n (Monitors.mon_C01 c rounds)]]
+    | 202 => [[b2n (Monitors.mon_C02 c rounds)]]
+    | 203 => [[b2n (Monitors.mon_C03 c rounds)]]
+    | 204 => [[b2n (Monitors.mon_C04 c rounds)]]
+    | 205 => [[b2n (Monitors.mon_C05 c rounds)]]
+    | 206 => [[b2n (Monitors.mon_C06 c rounds)]]
+    | 207 => [[b2n (Monitors.mon_C07 c rounds)]]
+    | 208 => [[b2n (Monitors.mon_C08 c rounds)]]
+    | 210 => [[b2n (Monitors.mon_C10 c rounds)]]
     | _ => [[99]]
     end
   end.
@@ -220,6 +220,9 @@ Definition dispatch_c17 (tag : N) (a : LL) : LL :=
   | 1712 => [[b2n (forallb psa_var_ok a)]]
   | 1720 => [[b2n (resolv_ok (arg a 0))]]
   | 1721 => [[b2n (match spec_nameservers (os_environ (skipn 1 a)) with [] => false | _ => true end)]]
+  | _ => [[99]]
+  end.
+
 (* ---- C18 / C07: configuration ---- *)
 (* Layout of a case (number lists):
      0  header [net kind 0 bad/1 v6/2 v4; ip; mask; lease kind 0 bad/1 dur; negative?; |seconds|; |ns remainder|;
